@@ -338,9 +338,13 @@ async fn finalize_artifact(
     stored_bytes: u64,
     bytes_total: u64,
 ) -> Option<StreamArtifactRef> {
-    let (Some(_file), Some(tmp_path), Some(hasher)) = (file, tmp_path, hasher) else {
+    let (Some(mut file), Some(tmp_path), Some(hasher)) = (file, tmp_path, hasher) else {
         return None;
     };
+    // `tokio::fs::File::write_all` returns once the bytes are handed to a background write; wait
+    // for it before the artifact is published under its content hash.
+    let _ = file.flush().await;
+    drop(file);
 
     let digest = hasher.finalize();
     let id = hex::encode(digest);
